@@ -1436,7 +1436,7 @@ Definition c01r_example : list event :=
    EArray cbeAT_String 1 [107]; EList;
      EPosInt 281474976710656; ENegInt 0; EInt (-100); EBigInt (Some 340282366920938463463374607431768211456%Z);
      EFloat 0x7ff4000000000001; EFloat 0x3ff199999999999a; EFloat 0xfff0000000000000;
-     ENan true; EDecimal (DFin true 15 (-1)); EBigDecimal (Some (DFin false 7 7)); EBigFloat (Some (BInf true)); EBigFloat (Some (BFin false 5 (-1076) 64));
+     ENan true; EDecimal (DFin true 15 (-1)); EBigDecimal (Some (DFin false 7 7)); EBigFloat (Some (BInf true)); EBigFloat (Some (BFin false 5 (-1074) 64));
      EComment true [99]; EBigInt None; EBool true;
      EArrayBegin cbeAT_String; EArrayChunk 2 true; EArrayData [195; 169]; EArrayChunk 1 false; EArrayData [97];
      EArrayBegin cbeAT_Uint8; EArrayChunk 20 false; EArrayData [1;2;3;4;5;6;7;8;9;10;11;12;13;14;15;16;17;18;19;20];
